@@ -506,6 +506,30 @@ func Run(ctx *common.Ctx) {
 				redefAt = len(evalOrder) // after everything is defined: the usual situation
 			}
 		}
+		hasMethod := map[int]bool{}
+		defMethod := func(c int) {
+			hasMethod[c] = true
+			r.simple(fmt.Sprintf("ODefMethod %d", c),
+				fmt.Sprintf("(progn (defmethod %s :before ((o %s)) (setq %s (cons %d %s))) nil)", r.gname(), r.cname(c), r.trname(), c, r.trname()), doneObs)
+			ctx.Hist("defmethod")
+		}
+		dispatch := func(i int) {
+			r.simple(fmt.Sprintf("ODispatch %d", i),
+				fmt.Sprintf("(progn (setq %s nil) (%s i%d) (reverse %s))", r.trname(), r.gname(), i, r.trname()), r.namesObs)
+			ctx.Hist("dispatch")
+		}
+		freshMethodClass := func() int {
+			var without []int
+			for c := 0; c < nClasses; c++ {
+				if !hasMethod[c] {
+					without = append(without, c)
+				}
+			}
+			if len(without) > 0 && rng.Chance(75) {
+				return common.Pick(rng, without)
+			}
+			return rng.Intn(nClasses)
+		}
 		randomOps := func(n int) {
 			for x := 0; x < n && r.bad == ""; x++ {
 				i := 0
@@ -517,7 +541,7 @@ func Run(ctx *common.Ctx) {
 				}
 				s := rng.Intn(nSlots)
 				kind := rng.Intn(100)
-				if r.ninst == 0 && kind >= 30 && kind < 92 {
+				if r.ninst == 0 && kind >= 30 && kind < 94 {
 					kind = rng.Intn(30)
 				}
 				switch {
@@ -579,23 +603,23 @@ func Run(ctx *common.Ctx) {
 				case kind < 81:
 					r.simple(fmt.Sprintf("OClassOf %d", i), fmt.Sprintf("(class-precedence (class-of i%d))", i), r.namesObs)
 					ctx.Hist("class-of")
-				case kind < 92:
-					r.simple(fmt.Sprintf("ODispatch %d", i),
-						fmt.Sprintf("(progn (setq %s nil) (%s i%d) (reverse %s))", r.trname(), r.gname(), i, r.trname()), r.namesObs)
-					ctx.Hist("dispatch")
+				case kind < 89:
+					dispatch(i)
+				case kind < 94:
+					// a call, a method for a class that had none, the same call again
+					dispatch(i)
+					defMethod(freshMethodClass())
+					dispatch(i)
+					ctx.Hist("dispatch-defmethod-dispatch")
 				default:
-					c := rng.Intn(nClasses)
-					r.simple(fmt.Sprintf("ODefMethod %d", c),
-						fmt.Sprintf("(progn (defmethod %s :before ((o %s)) (setq %s (cons %d %s))) nil)", r.gname(), r.cname(c), r.trname(), c, r.trname()), doneObs)
-					ctx.Hist("defmethod")
+					defMethod(freshMethodClass())
 				}
 			}
 		}
 		// a few methods up front so that dispatch has something to find
 		for _, c := range defined {
-			if rng.Chance(60) {
-				r.simple(fmt.Sprintf("ODefMethod %d", c),
-					fmt.Sprintf("(progn (defmethod %s :before ((o %s)) (setq %s (cons %d %s))) nil)", r.gname(), r.cname(c), r.trname(), c, r.trname()), doneObs)
+			if rng.Chance(40) {
+				defMethod(c)
 			}
 		}
 		for i, c := range evalOrder {
@@ -663,8 +687,10 @@ func Run(ctx *common.Ctx) {
 	replayOrderFinding(ctx)
 }
 
-// The classChanged finding depends on Go's map iteration order: the witness is tried with fresh names
-// until the stale precedence list shows (5 in 6 attempts do).
+// The classChanged finding depends on Go's map iteration order: the witness (a chain a <- b <- c, a redefined
+// under z) is run `attempts` times with fresh names.  On the unchanged code c is merged before b in half of the
+// runs and then misses z.  Some stale run = the known finding reproduced.  EVERY run stale (probability 2^-40
+// on the unchanged code) = redefinition no longer reaches the second level at all: reported as a violation.
 func replayOrderFinding(ctx *common.Ctx) {
 	const id = "C12-redefinition-order-of-subclasses"
 	raw, has := ctx.Known[id]
@@ -676,19 +702,27 @@ func replayOrderFinding(ctx *common.Ctx) {
 		Expected string `json:"expected"`
 		Attempts int    `json:"attempts"`
 	}
-	if err := json.Unmarshal(raw, &w); err != nil || w.Template == "" {
+	if err := json.Unmarshal(raw, &w); err != nil || w.Template == "" || w.Attempts < 1 {
 		return
 	}
-	seen := ""
+	stale, seen, last, lastExp := 0, "", "", ""
 	for a := 0; a < w.Attempts; a++ {
 		src := strings.ReplaceAll(w.Template, "@", fmt.Sprintf("kf%d", a))
 		exp := strings.ReplaceAll(w.Expected, "@", fmt.Sprintf("kf%d", a))
 		got := strings.Join(strings.Fields(common.ShowOutcome(common.EvalTimeout(slip.NewScope(), src, 5*time.Second))), " ")
+		last, lastExp = src, exp
 		if got != exp {
-			ctx.KnownResult(id, true, got)
-			return
+			stale++
+			seen = got
 		}
-		seen = got
 	}
-	ctx.KnownResult(id, false, seen)
+	ctx.Hist(fmt.Sprintf("order-witness-stale-runs:%d-of-%d", stale, w.Attempts))
+	if stale == w.Attempts {
+		ctx.Violate("a redefinition is never reflected in a class two levels below the redefined class (all runs of the witness; "+
+			"the unchanged code gets it right whenever Go's map order visits the direct subclass first)", last, seen, lastExp)
+	}
+	if seen == "" {
+		seen = "every run gave the expected lists"
+	}
+	ctx.KnownResult(id, stale > 0, seen)
 }
